@@ -787,50 +787,7 @@ func checkJoseInputsNotModified(c *Ctx) {
 		if !R.Anchor(fn != nil && t.param < len(fn.Params), "C16.gate", t.pkg+"."+t.fn) {
 			continue
 		}
-		in := fn.Params[t.param]
-		derived := map[ssa.Value]bool{in: true}
-		tainted := map[ssa.Value]bool{} // containers (slices of slices) holding pieces of the input
-		for changed := true; changed; {
-			changed = false
-			core.EachInstr(fn, func(x ssa.Instruction) {
-				switch v := x.(type) {
-				case *ssa.Slice:
-					if derived[v.X] && !derived[v] {
-						derived[v], changed = true, true
-					}
-				case *ssa.Store:
-					if ia, ok := v.Addr.(*ssa.IndexAddr); ok && derived[v.Val] && !tainted[ia.X] {
-						tainted[ia.X], changed = true, true
-					}
-				case *ssa.UnOp:
-					if ia, ok := v.X.(*ssa.IndexAddr); ok && v.Op == token.MUL && tainted[ia.X] && !derived[v] {
-						derived[v], changed = true, true
-					}
-				case *ssa.Phi:
-					for _, e := range v.Edges {
-						if derived[e] && !derived[v] {
-							derived[v], changed = true, true
-						}
-					}
-				}
-			})
-		}
-		bad := ""
-		core.EachInstr(fn, func(x ssa.Instruction) {
-			switch v := x.(type) {
-			case *ssa.Call:
-				if b, ok := v.Call.Value.(*ssa.Builtin); ok && b.Name() == "copy" && derived[v.Call.Args[0]] {
-					bad = "copy into the input at " + P.InstrPos(v)
-				}
-				if v.Call.IsInvoke() && (v.Call.Method.Name() == "Decrypt" || v.Call.Method.Name() == "CryptBlocks" || v.Call.Method.Name() == "Encrypt") && len(v.Call.Args) > 0 && derived[v.Call.Args[0]] {
-					bad = "in-place cipher operation on the input at " + P.InstrPos(v)
-				}
-			case *ssa.Store:
-				if ia, ok := v.Addr.(*ssa.IndexAddr); ok && derived[ia.X] {
-					bad = "store into the input at " + P.InstrPos(v)
-				}
-			}
-		})
+		bad := writesThrough(P, fn, fn.Params[t.param])
 		R.Check(bad == "", "C16.gate", "jose|"+t.fn+"|input-not-modified", P.Pos(fn.Pos()),
 			"the primitive computes on copies and leaves the bytes it was given untouched",
 			"the primitive writes through its input ("+bad+"): the parsed object's own bytes are altered by the first attempt, so decrypting it again (or with the right key after a wrong one) fails", nil)
